@@ -247,6 +247,16 @@ Theorem c04_ifeq_with_calls_in_its_branches :
 Proof. exact ifeq_calls. Qed.
 Print Assumptions c04_ifeq_with_calls_in_its_branches.
 
+(* #ifeq with calls in its operands too (full expansion): both operands are expanded first and their results compared *)
+Theorem c04_ifeq_with_calls_in_its_operands :
+  forall pfnames lib opts x more,
+    ifeq_full_ok pfnames lib x more = true -> o_parserfns opts = true -> o_tfn opts = [] -> o_pfn opts = [] ->
+    exists F, forall stk fuel, (length stk < 98)%nat -> fresh_items stk x = true ->
+      forallb (fresh_items stk) more = true -> (F <= fuel)%nat ->
+      expand_T pfnames lib opts fuel stk true ((ifeq_head ++ x)%list :: more) = Some (ifeq_full_result lib x more).
+Proof. exact ifeq_full. Qed.
+Print Assumptions c04_ifeq_with_calls_in_its_operands.
+
 Theorem c04_switch_with_calls_in_its_values :
   forall pfnames lib opts x cases,
     plain x = true -> forallb (case_calls_ok pfnames lib) cases = true ->
